@@ -8,7 +8,7 @@ def main():
     vf.build("hooks")
     c.model("Abi.tla", "AbiSmall.cfg" if c.thorough else "AbiSmallQuick.cfg")
     abidiff = vf.tool("hooks", "abidiff")
-    cases = campaign.programs(c, 1500 if c.thorough else 120)
+    cases = campaign.programs(c, 1500 if c.thorough else 100) + campaign.programs(c, 700 if c.thorough else 50, name="gencxx", Lang='"cxx"')
     comps = ["gcc", "clang", "gcc-dwarf4", "clang-dwarf5"] if c.thorough else ["gcc", "clang"]
 
     def styles(idx):
